@@ -225,6 +225,12 @@ def registry_part(mon, rec):
                 if type(obj) is not cls and alias not in {a for c2 in walk(fam) if c2 is not cls and mon.seq.get(c2, 0) > mon.seq.get(cls, 0) for a in (names_of(c2.__dict__.get("aliases") or ()))}:
                     mon.v("%s.from_alias(%r) built %s, the alias belongs to %s" % (fam.__name__, alias, type(obj).__name__, cls.__name__), check="registry", root=fam.__name__, alias=alias)
         frags = set()
+        # aliases of the OTHER families are unknown here
+        for other in FAMILIES:
+            if other != path:
+                for c2 in walk(family(other)):
+                    frags |= {a for a in names_of(c2.__dict__.get("aliases") or ()) if a not in seen}
+        rec.count("cross_family_aliases_probed", len(frags))
         for a in seen:
             frags |= {a[:-1], a[1:], a[1:-1], a[: len(a) // 2], a + "s", a.upper()}
         for bad in sorted({"", "no-such-alias", "MEL", " mel", "mel "} | frags):
@@ -300,10 +306,13 @@ out = []
 def mk(kind, vals):
     return {"set": set, "list": list, "tuple": tuple, "frozenset": frozenset, "dict": lambda v: {a: None for a in v}}[kind](vals)
 for st in steps:
-    if st[0] == "def":
+    if st[0] in ("def", "defstrict"):
         _, name, base, kind, vals = st
-        body = {"aliases": mk(kind, vals), "__init__": (lambda self, *a, **k: None), "scale_to_hertz": (lambda self, s: s), "hertz_to_scale": (lambda self, h: h),
-                "get_impulse_response": (lambda self, w: None), "apply": (lambda self, *a, **k: None)}
+        def strict_init(self, *args, **kw):
+            if not args and "required_argument" not in kw:
+                raise TypeError("REFUSED:" + type(self).__name__)
+        body = {"aliases": mk(kind, vals), "__init__": (strict_init if st[0] == "defstrict" else (lambda self, *a, **k: None)), "scale_to_hertz": (lambda self, s: s),
+                "hertz_to_scale": (lambda self, h: h), "get_impulse_response": (lambda self, w: None), "apply": (lambda self, *a, **k: None)}
         ns[name] = type(name, (ns[base],), body)
     else:
         _, root, alias = st
@@ -311,6 +320,8 @@ for st in steps:
             out.append(type(ns[root].from_alias(alias)).__name__)
         except ValueError as e:
             out.append("ValueError")
+        except TypeError as e:
+            out.append("TypeError:" + str(e).split("REFUSED:")[-1] if "REFUSED:" in str(e) else "TypeError")
         except Exception as e:
             out.append("EXC:" + repr(e)[:100])
 print(json.dumps(out))
@@ -328,12 +339,15 @@ def expected_for(steps):
     order = {"MelScaling": -2, "BarkScaling": -1, "HannWindow": -1, "Dither": -1}
     clock = 0
     exp = []
+    strict = set()
     for st in steps:
-        if st[0] == "def":
+        if st[0] in ("def", "defstrict"):
             clock += 1
             parent[st[1]] = st[2]
             aliases[st[1]] = list(st[4])
             order[st[1]] = clock
+            if st[0] == "defstrict":
+                strict.add(st[1])
         else:
             root, alias = st[1], st[2]
 
@@ -345,7 +359,13 @@ def expected_for(steps):
                 return False
 
             cands = [c for c in aliases if alias in aliases[c] and under(c)]
-            exp.append(max(cands, key=lambda c: order[c]) if cands else "ValueError")
+            win = max(cands, key=lambda c: order[c]) if cands else "ValueError"
+            if not cands:
+                exp.append(("ValueError", None))
+                continue
+            # the winner is built without arguments: a class whose constructor needs one refuses with TypeError
+            # (the search must not fall back to a shadowed class)
+            exp.append(("TypeError:" + win if win in strict else win, win))
     return exp, parent, order
 
 
@@ -367,6 +387,8 @@ DIRECTED = {
                          ["lookup", "PreProcessor", "q4"], ["lookup", "PreProcessor", "q5"]],
     "subfamily_root_does_not_see_siblings": [["def", "A", "ScalingFunction", "set", ["k"]], ["lookup", "MelScaling", "k"], ["lookup", "BarkScaling", "mel"]],
     "unknown_after_registration": [["def", "A", "PreProcessor", "set", ["k"]], ["lookup", "PreProcessor", ""], ["lookup", "PreProcessor", "K"]],
+    "winner_refuses_arguments": [["defstrict", "X", "ScalingFunction", "set", ["mel"]], ["lookup", "ScalingFunction", "mel"], ["lookup", "MelScaling", "mel"],
+                                 ["def", "Y", "ScalingFunction", "set", ["bark"]], ["defstrict", "Z", "Y", "set", ["bark"]], ["lookup", "ScalingFunction", "bark"]],
     "shadow_own_parent_then_sibling": [["def", "P", "PreProcessor", "set", ["p"]], ["def", "C", "P", "set", ["p"]], ["def", "S", "PreProcessor", "set", ["p"]],
                                        ["lookup", "PreProcessor", "p"], ["lookup", "P", "p"]],
 }
@@ -384,7 +406,8 @@ def random_scenario(rng):
         base = str(rng.choice([root] + names + (builtin if rng.random() < 0.3 else [])))
         name = "C%d" % j
         k = int(rng.integers(1, 3))
-        steps.append(["def", name, base, str(rng.choice(["set", "list", "tuple", "frozenset", "dict"])), [str(a) for a in rng.choice(pool, size=k, replace=False)]])
+        steps.append(["defstrict" if rng.random() < 0.15 else "def", name, base, str(rng.choice(["set", "list", "tuple", "frozenset", "dict"])),
+                      [str(a) for a in rng.choice(pool, size=k, replace=False)]])
         names.append(name)
     for a in pool:
         steps.append(["lookup", root, a])
@@ -407,12 +430,15 @@ def run_scenario(mon, rec, name, steps, workdir):
     lookups = [s for s in steps if s[0] == "lookup"]
     rec.count("scenarios")
     collision = False
-    for (st, g, w) in zip(lookups, got, want):
+    for (st, g, (w, wcls)) in zip(lookups, got, want):
         rec.ev()
         rec.count("scenario_lookups")
         if g != w:
-            mon.v("scenario %s: %s.from_alias(%r) built %s; the class registered last with that alias is %s" % (name, st[1], st[2], g, w), check="shadowing", scenario=name,
-                  steps=steps, root=st[1], alias=st[2], got=g, want=w, parent=parent, order=order)
+            mon.v("scenario %s: %s.from_alias(%r) gave %s; the class registered last with that alias is %s%s" % (
+                name, st[1], st[2], g, wcls, " (whose constructor refuses the call: TypeError expected)" if w.startswith("TypeError") else ""), check="shadowing", scenario=name,
+                steps=steps, root=st[1], alias=st[2], got=g.split(":")[-1], got_outcome=g, want=wcls, want_outcome=w, parent=parent, order=order)
+        if w.startswith("TypeError"):
+            rec.count("lookups_whose_winner_refuses_the_arguments")
         if w != "ValueError":
             collision = True
     if collision:
@@ -592,7 +618,7 @@ def run_shard(spec, rec):
 
 
 def finish(rec):
-    for k in ("registry_pairs_checked", "factory_checks", "scenarios", "scenario_lookups", "trees", "from_alias_calls", "from_alias_unknown_alias"):
+    for k in ("registry_pairs_checked", "factory_checks", "scenarios", "scenario_lookups", "trees", "from_alias_calls", "from_alias_unknown_alias", "lookups_whose_winner_refuses_the_arguments", "cross_family_aliases_probed"):
         if not rec.counters[k]:
             rec.inconc("part %s never ran" % k)
     if rec.counters["registry_pairs_checked"] and rec.counters["registry_pairs_checked"] < 30:
